@@ -62,6 +62,9 @@ func pkcs7Workload() {
 			// give the input spare capacity on every other case: Pad appends
 			in := make([]byte, n, n+(n%2)*300)
 			copy(in, m)
+			if n == 0 && b%2 == 1 {
+				in = nil // the empty message spelled as a nil slice
+			}
 			var out []byte
 			var err error
 			p, v, st := mon.Guard(func() { out, err = pkcs7.Pad(in, uint8(b)) })
